@@ -1,6 +1,7 @@
 import Rio.Model.Tar
 import Rio.Proofs.UnpackNoPanic
 import Rio.Proofs.ZipHdr
+import Rio.Proofs.UnpackZipNoPanic
 /-!
 # C17 — Every failure is a categorized rio error; bad input never crashes
 
@@ -77,5 +78,17 @@ theorem C17_zip_owner_never_panics (extra : Bytes) : zipOwnership extra ≠ .pan
 /-- the error branch is reachable and is the one the fix introduced (test): a Unix3 block of seven data bytes
     announcing a four-byte gid -/
 example : zipOwnership [0x75, 0x78, 7, 0, 1, 4, 3, 4, 5, 6, 2] = .corrupt := by decide
+
+/-- **The zip unpack loop never panics**: for every entry list `archive/zip` can hand over (any names, any
+    `os.FileMode` — devices, fifos, sockets, irregular —, any extra field, any time, bodies that fail to open or to
+    read), every filter, every behaviour of the filesystem operations (`ops` is arbitrary) and every hash function,
+    the outcome of `unpackZip` is `ok` or an error category.  Same loop invariant as for tar (`UInv`); the per-entry
+    step (`zentry_inv`) differs in the header conversion, in reading a symlink's target from its body and in refusing
+    every other type.  The zip twin of the empty-filtered-bucket defect was found while this model was being written
+    (`fix:` 2d9423e). -/
+theorem C17_unpackzip_never_panics {σ : Type} (H : Bytes → Bytes) (ops : FsOps σ) (myUid myGid : Nat)
+    (filt : UnpackFilter) (hdrs : List ZipHdr) (readable : Bool) (s0 : σ) (w : String) :
+    unpackZip H ops myUid myGid filt hdrs readable s0 ≠ .panic w :=
+  unpackZip_never_panics H ops myUid myGid filt hdrs readable s0 w
 
 end Rio
